@@ -544,7 +544,7 @@ func TestC19(t *testing.T) {
 	}
 	st.Set("evaluations", len(codes)+st.Get("retries_checked")+st.Get("burst_served")+st.Get("climb_served"))
 	st.Set("traces_validated_against_impl", len(codes)-disagreements)
-	st.Set("rule", "the real HttpPushStreamer under testing/synctest with an in-memory RoundTripper scripted per request: one message per final status code (quick: 22 codes incl. transport error; thorough: every code 200-599 and 100-103), fast and slow answers, retry after back-off, then a 40-message burst; distinct = distinct status codes")
+	st.Set("rule", "the real HttpPushStreamer under testing/synctest with an in-memory RoundTripper scripted per request: one message per final status code (quick: 22 codes incl. transport error; thorough: every code 200-599 and 100-103), fast and slow answers, retry after back-off, then a 40-message burst; distinct = distinct status codes; every other response body breaks off before its announced length; NextDelayFor swept directly against the exact model value for attempt counts up to MaxInt32")
 	st.Sample(map[string]interface{}{"batches": batches, "window_trajectory": trajectory})
 	st.Summary = fmt.Sprintf("codes=%d retries=%d burst=%d disagreements=%d", len(codes), st.Get("retries_checked"), st.Get("burst_served"), disagreements)
 }
